@@ -110,3 +110,22 @@ pub fn local_ext(r: &RV) {
     emit(r, &MODERN, &mut out);
     decodes_to(out.bytes(), r);
 }
+
+/// two Latin-1 bytes, both >= 0x80 (some such pairs happen to be well-formed UTF-8 — they still denote two code points)
+pub fn latin1_atom2(tag: u8) {
+    let (c, d) = (vk::u8(), vk::u8());
+    vk::assume(c >= 0x80 && d >= 0x80);
+    let mut out = Out::new();
+    out.push(131);
+    out.push(tag);
+    if tag == 115 {
+        out.push(2);
+    } else {
+        out.push(0);
+        out.push(2);
+    }
+    out.push(c);
+    out.push(d);
+    let name = vec![0xC0 | (c >> 6), 0x80 | (c & 0x3f), 0xC0 | (d >> 6), 0x80 | (d & 0x3f)];
+    decodes_to(out.bytes(), &RV::Atom(name));
+}
